@@ -464,6 +464,23 @@ _ADD8 = {
     "C19": " ReplaceAttr comes in four modes (package-helper-like, remove all built-in top-level attributes, remove every attribute so that the text line is empty, rewrite keys and values).",
     "C20": " The same LogMiddleware instance, or two distinct ones, may be nested in the chain (each level logs its own records).",
 }
+# Round 9.
+_ADD9 = {
+    "C02": " Alias edits also include single-bit flips of an ASCII byte (0x10..0x19 for digits, high-bit bytes ...).",
+    "C07": " Lines include names at the 63/253-octet boundaries and 'twins' of the previous name (other case, a fold-equal look-alike such as U+017F or U+212A whose IDNA form is longer, one character more or less).",
+    "C11": " A large kind grows a set to 0..100000 values (around 2^8..2^16), empties it by Clear / deleting everything / clearing a clone's origin / Clear twice, and goes on using it.",
+    "C15": " A standard io.LimitedReader with budget limit-1 / limit / limit+1 may sit between the source and the reader under test.",
+    "C18": " Registered services have different dynamic types: pointers, func adapters and structs with slice fields (both unhashable), comparable struct values.",
+    "C19": " One attribute kind is a slog.LogValuer following an external gauge that the sequential check moves before every record (evaluation must happen when a record is printed).",
+}
+for _pid, _lt in _ADD9.items():
+    PROPS[_pid]["level_text"] += _lt
+_COLD = (" Every concurrent kind (<kind>.conc) is preceded by cold starts: fresh child processes whose first use of the library is one concurrent batch "
+         "released by a spinning barrier (4 per kind in the quick tier, 12 in the thorough tier), so that lazily initialised package-level state is first touched concurrently.")
+for _pid, _cfg in PROPS.items():
+    if any(v.get("name") == "conc" for v in _cfg.get("variants", [])):
+        _cfg["level_text"] += _COLD
+
 for _pid, _lt in _ADD8.items():
     PROPS[_pid]["level_text"] += _lt
 
